@@ -52,8 +52,8 @@ GENERATORS = ("moving_sprite", "static_sprite", "mid_gray", "white_noise", "line
 
 _TIER = {
     # formats in total, shards, max depth
-    "quick": (4800, 16, 32),
-    "thorough": (160000, 64, 63),
+    "quick": (9600, 16, 32),
+    "thorough": (480000, 64, 63),
 }
 
 
